@@ -186,6 +186,7 @@ type HarnessReport struct {
 	Known      []string       `json:"known_findings,omitempty"`
 	Vacuity    string         `json:"vacuity,omitempty"`
 	Samples    []PathResult   `json:"-"`
+	Validation *ValidationReport `json:"encoding_validation,omitempty"`
 }
 
 type violation struct {
@@ -215,6 +216,7 @@ func cmdCheck(args []string) int {
 	only := fs.String("harness", "", "run only this harness")
 	jobs := fs.Int("jobs", 0, "worker count")
 	noReplay := fs.Bool("no-replay", false, "do not replay counterexamples natively (debug)")
+	noValidate := fs.Bool("no-validate", false, "do not replay ok-path samples natively (debug)")
 	verbose := fs.Bool("v", false, "verbose")
 	maxPaths := fs.Int("max-paths", 0, "stop each harness after this many paths (debug; result is then truncated)")
 	fs.Parse(args)
@@ -265,6 +267,12 @@ func cmdCheck(args []string) int {
 	}
 	loadS := time.Since(start).Seconds()
 
+	sampleBins := map[string]*sampleBinary{}
+	defer func() {
+		for _, sb := range sampleBins {
+			os.RemoveAll(sb.dir)
+		}
+	}()
 	var reports []*HarnessReport
 	var viols []violation
 	var knownPrinted []string
@@ -373,6 +381,30 @@ func cmdCheck(args []string) int {
 			}
 			viols = append(viols, violation{fingerprint: fp, replay: dir, detail: cex.Detail})
 		}
+		if !*noValidate && !*noReplay && len(ex.okSamples) > 0 {
+			sb := sampleBins[h.Pkg]
+			if sb == nil {
+				var fns []string
+				for _, hh := range pc.Harnesses {
+					if hh.Pkg == h.Pkg {
+						fns = append(fns, hh.Func)
+					}
+				}
+				sb = buildSampleBinary(filepath.Join(replayRoot, *prop), h.Pkg, fns, files)
+				sampleBins[h.Pkg] = sb
+			}
+			rep.Validation = validateSamples(sb, h, c.Params, ex.okSamples)
+			for _, d := range rep.Validation.Disagreed {
+				fmt.Println("ENCODING-DISAGREEMENT: " + d)
+				machineryErr = true
+			}
+			for _, d := range rep.Validation.Warnings {
+				fmt.Println("ENCODING-WARNING (schedule-dependent path, no verdict change): " + d)
+			}
+			if rep.Validation.Skipped != "" {
+				fmt.Println("ENCODING-VALIDATION-SKIPPED: " + rep.Validation.Skipped)
+			}
+		}
 		nAsserts := 0
 		for _, n := range ex.asserts {
 			nAsserts += n
@@ -402,8 +434,12 @@ func cmdCheck(args []string) int {
 		fmt.Printf("NOT-DECIDED: %s (x%d)\n", k, n)
 	}
 	for _, r := range reports {
-		fmt.Printf("harness %-28s paths=%-6d ok=%-6d queries=%-6d cex=%d confirmed=%d unconfirmed=%d wall=%.1fs %s\n",
-			r.Name, r.Paths, r.Outcomes["ok"], r.Queries["sat"]+r.Queries["unsat"]+r.Queries["unknown"], r.Candidates, r.Confirmed, len(r.Unconfirmed), r.WallS, r.Vacuity)
+		val := ""
+		if r.Validation != nil {
+			val = fmt.Sprintf(" native-agree=%d/%d", r.Validation.Agreed, r.Validation.Sampled)
+		}
+		fmt.Printf("harness %-28s paths=%-6d ok=%-6d queries=%-6d cex=%d confirmed=%d unconfirmed=%d wall=%.1fs %s%s\n",
+			r.Name, r.Paths, r.Outcomes["ok"], r.Queries["sat"]+r.Queries["unsat"]+r.Queries["unknown"], r.Candidates, r.Confirmed, len(r.Unconfirmed), r.WallS, r.Vacuity, val)
 		for _, u := range r.Unconfirmed {
 			fmt.Printf("  UNCONFIRMED (no alarm): %s\n", u)
 		}
@@ -412,7 +448,7 @@ func cmdCheck(args []string) int {
 		return 1
 	}
 	if machineryErr {
-		fmt.Println("MACHINERY-ERROR: internal executor error or vacuous harness (no verdict)")
+		fmt.Println("MACHINERY-ERROR: internal executor error, vacuous harness or encoding disagreement (no verdict)")
 		return 2
 	}
 	return 0
